@@ -2481,7 +2481,7 @@ coap_handle_request_send_block(coap_session_t *session,
                                            coap_opt_length(etag_opt));
     if (etag != lg_xmit->b.b2.etag) {
       /* Not a match - pass up to a higher level */
-      return 0;
+      goto call_app_handler;
     }
     out_pdu->code = COAP_RESPONSE_CODE(203);
     coap_ticks(&lg_xmit->last_sent);
